@@ -258,6 +258,7 @@ class PolarityCNFizer(CNFizer):
                    formula.is_symbol() or \
                    formula.is_function_application() or \
                    formula.is_bool_constant() or \
+                   formula.is_select() or \
                    formula.is_theory_relation(), str(formula)
             return []
 
